@@ -134,8 +134,12 @@ fn comp_ws(r: &mut Rng, level: u8, feats: &mut Vec<&'static str>) -> &'static st
         return " ";
     }
     feats.push("component-ws-variant");
-    // blanks and tabs only: free newlines are granted around separators, not inside a relation
-    *r.pick(&["", "  ", "\t"])
+    // a folded field may also break the line between the parts of a relation ("every legal whitespace placement")
+    let w = *r.pick(&["", "  ", "\t", "\n "]);
+    if w.contains('\n') {
+        feats.push("newline-inside-relation");
+    }
+    w
 }
 
 pub fn gen_relation(r: &mut Rng, o: &ROpts) -> MRel {
